@@ -17,6 +17,13 @@ def run():
     for f in sorted(os.listdir(tlc.SPEC_DIR)):
         if not f.endswith('.tla'):
             continue
+        src = open(os.path.join(tlc.SPEC_DIR, f), encoding='utf-8').read()
+        if 'TLAPS' in src.split('====')[0].split('EXTENDS', 1)[-1].split('\n')[0]:
+            # a proof module: it EXTENDS TLAPS, which lives in the proof system's library, not on SANY's path; tlapm parses and checks it (C10)
+            import shutil
+            exe = shutil.which('tlapm')
+            print('SANY %-24s %s' % (f, 'skipped (proof module; %s)' % ('checked by tlapm in C10' if exe else 'tlapm not on PATH: C10 records that the lemma was not re-checked')))
+            continue
         good, out = tlc.sany(os.path.join(tlc.SPEC_DIR, f))
         print('SANY %-24s %s' % (f, 'ok' if good else 'FAILED'))
         if not good:
